@@ -294,6 +294,10 @@ class Interp:
             for s1 in self.cases(c["l"], not pol, st):
                 out += self.cases(c["r"], pol, s1)
             return out
+        if k == "Local" and c["id"] not in self.mutable:
+            init = self.b.local_init(c["id"])
+            if init is not None:
+                return self.cases(init, pol, st)
         if k == "Lit" and c.get("lk") == "bool":
             if self.b.macro_name(c) == "cfg":
                 return [st.copy()]  # target dependent: both ways
